@@ -24,7 +24,7 @@ def trigger_lists(ck):
     if ck.thorough():
         rng = ck.rng('triples')
         triples = [list(p) for p in itertools.product(ALL, ALL, ALL)]
-        lists += rng.sample(triples, len(triples) // 6)
+        lists += rng.sample(triples, len(triples) // 2)
     return lists
 
 
@@ -51,7 +51,7 @@ def run(ck):
         if len(trig) == 2:
             ck.count('pairs_explored')
     # random walks
-    nwalks = 1600 if not ck.thorough() else 40000
+    nwalks = 1600 if not ck.thorough() else 160000
     rng = ck.rng('walks', ck.shard[0])
     for w in range(nwalks):
         if not ck.mine(w):
